@@ -344,7 +344,7 @@ def execute(schedule, ctx):
             if model['kind'] != 'parser':
                 probes.get_ctl(A).arm({})
                 probes.get_ctl(K).arm({})
-            ra, rk = both(lambda: A.solve(**opts), lambda: K.solve(**opts))
+            ra, rk = both(lambda: A.solve(**S.solver_kwargs(opts)), lambda: K.solve(**S.solver_kwargs(opts)))
             ra, rk = val(ra), val(rk)
             ctx.probe('solve')
         elif kind == 'to_dataframe':
